@@ -503,6 +503,31 @@ pub fn random_case(seed: u64, stream: u64, idx: u64, f: Feat) -> Case {
     g.program()
 }
 
+/// Makes a program rich in `$_`: every variable that occurs exactly once in its clause, in
+/// the head or in the arguments of a call or `=` goal (at any depth), is written as `$_`.
+pub fn anonymize_singletons(c: &Case) -> Case {
+    let clauses = c.prog.clauses.iter().map(|cl| {
+        let mut counts: Vec<((String, u32), usize)> = vec![];
+        let mut bump = |t: &T| { t.map_vars(&mut |n, i| { match counts.iter_mut().find(|(k, _)| k.0 == n && k.1 == i) { Some(e) => e.1 += 1, None => counts.push(((n.to_string(), i), 1)) } T::Var(n.to_string(), i) }); };
+        for a in &cl.args { bump(a); }
+        if let Some(b) = &cl.body { for t in b.terms() { bump(&t); } }
+        let single = |n: &str, i: u32| counts.iter().any(|(k, c)| k.0 == n && k.1 == i && *c == 1);
+        let anon = |t: &T| t.map_vars(&mut |n, i| if single(n, i) { T::Anon } else { T::Var(n.to_string(), i) });
+        fn walk(g: &G, anon: &dyn Fn(&T) -> T) -> G {
+            match g {
+                G::Call(n, a) => G::Call(n.clone(), a.iter().map(|t| anon(t)).collect()),
+                G::Unify(a, b) if !a.has_func() && !b.has_func() => G::Unify(anon(a), anon(b)),
+                G::And(gs) => G::And(gs.iter().map(|x| walk(x, anon)).collect()),
+                G::Or(gs) => G::Or(gs.iter().map(|x| walk(x, anon)).collect()),
+                G::Not(x) => G::Not(Box::new(walk(x, anon))),
+                other => other.clone(),
+            }
+        }
+        Clause { name: cl.name.clone(), args: cl.args.iter().map(|t| anon(t)).collect(), body: cl.body.as_ref().map(|b| walk(b, &anon)) }
+    }).collect();
+    Case { prog: Program { clauses }, qname: c.qname.clone(), qargs: c.qargs.clone() }
+}
+
 /// Consistent renaming of clause variables (C11). mode: 0 random fresh names, 1 use the
 /// query's names, 2 same names in every clause, 3 names that are prefixes of each other.
 pub fn alpha_rename(c: &Case, mode: usize, r: &mut Rng) -> Case {
